@@ -120,6 +120,16 @@ Proof.
   exists g1. split; auto. rewrite forallb_forall in H2. apply Forall_forall. intros n Hn.
   apply chk_merged_sound; auto.
 Qed.
+Theorem chk_exts_sound (g : graph) censor out :
+  chk_exts D K stranded g censor out = true -> exts_exact D K stranded g censor out.
+Proof.
+  unfold chk_exts, exts_exact. destruct (restrict D K stranded g (survivors D g censor)) as [g1|]; [|discriminate].
+  intro H. exists g1. split; auto. rewrite forallb_forall in H. apply Forall_forall. intros n Hn.
+  specialize (H n Hn). unfold chk_exts_node in H. unfold exts_ok.
+  destruct (node_path D K stranded g1 (n_seq D n)) as [p|] eqn:E; [|discriminate].
+  exists p. split; [now apply node_path_sound|].
+  destruct (path_exts D g1 p) as [e|]; [|discriminate]. apply N.eqb_eq in H. now subst.
+Qed.
 End Sound.
 
 Section SoundPay.
